@@ -64,6 +64,15 @@ Theorem all_closed_exactly_once :
 Proof. exact FileProofs.all_closed_exactly_once. Qed.
 Print Assumptions all_closed_exactly_once.
 
+(* 3b. the invariant `inv` used as hypothesis below holds in every world reachable by any history *)
+Theorem reachable_worlds_satisfy_inv :
+  forall (B : Type) (zero : B) (is_ws is_digit is_sign : B -> bool) (creatable close_fails : nat -> bool)
+         (fs : fsys B) (objs : nat -> fobj) (ops : list (op B)),
+  (forall i h, objs i <> FObj (Some h)) ->
+  inv B (fst (run B zero is_ws is_digit is_sign creatable close_fails file_close_tests_closed file_close_clears_always (w_init B fs objs) ops)).
+Proof. exact FileProofs.reachable_inv. Qed.
+Print Assumptions reachable_worlds_satisfy_inv.
+
 (* 4. the model of File.c (handles, NULL tests, ledger) refines the handle-free specification for
       ALL histories: same outcomes, same Files, same file system *)
 Theorem model_refines_spec :
@@ -81,6 +90,26 @@ Example model_refines_spec_nonvacuous :
   forall (B : Type) (fs : fsys B) (objs : nat -> fobj),
   (forall i h, objs i <> FObj (Some h)) -> inv B (w_init B fs objs) /\ sw_equiv B (abs B (w_init B fs objs)) (abs B (w_init B fs objs)).
 Proof. exact (fun B fs objs H => conj (FileProofs.inv_init B fs objs H) (FileProofs.equiv_refl B (w_init B fs objs))). Qed.
+
+(* 4b. frame: an operation aimed at one File (for `}` the File of the innermost with block) leaves the
+       stream of every other File as it was (state, position, EOF flag), in every reachable world *)
+Theorem other_files_untouched :
+  forall (B : Type) (zero : B) (is_ws is_digit is_sign : B -> bool) (creatable close_fails : nat -> bool)
+         (w : world B) (o : op B) (j : nat),
+  inv B w -> target B (w_stack B w) o <> Some j ->
+  abs_obj B (fst (step B zero is_ws is_digit is_sign creatable close_fails file_close_tests_closed file_close_clears_always w o))
+          (w_objs B (fst (step B zero is_ws is_digit is_sign creatable close_fails file_close_tests_closed file_close_clears_always w o)) j)
+  = abs_obj B w (w_objs B w j).
+Proof. exact FileProofs.step_frame. Qed.
+Print Assumptions other_files_untouched.
+
+Example other_files_untouched_nonvacuous :
+  let w := fst (xrun true true [OOpen nat 2 0 MWp; OWrite nat 2 [1; 2]]) in
+  target nat (w_stack nat w) (ONewOpen nat 0 1 MW) <> Some 2 /\
+  abs_obj nat w (w_objs nat w 2) = SOpen (mkS 0 2 false MWp) /\
+  let w' := fst (run nat 0 xws xdigit xsign xcreat xfull true true w [ONewOpen nat 0 1 MW; OWrite nat 0 [5]; ODel nat 0]) in
+  abs_obj nat w' (w_objs nat w' 2) = SOpen (mkS 0 2 false MWp).
+Proof. exact FileExamples.frame_example. Qed.
 
 (* 5. bytes written with swrite in ANY chunking ds are read back identical with sread in ANY chunking
       ns (sum of sizes = bytes written; empty chunks allowed) after sclose + sopen, after ANY prefix
@@ -135,6 +164,35 @@ Example write_read_roundtrip_seek_nonvacuous :
      OkRead nat 1 [5; 6]; OkRead nat 1 [7];
      OkNum nat 3; OkBool nat false; OkRead nat 0 []; OkBool nat true].
 Proof. exact FileExamples.seek_example. Qed.
+
+(* 6a. all seek origins and all offsets inside the file: after ANY history that leaves File i open on a
+       readable stream, sseek to a target t (from the start, the current position or the end), then stell
+       = t, seof = false, sread of n bytes that lie inside the file returns exactly content[t, t+n), stell = t+n *)
+Theorem seek_tell_read_anywhere :
+  forall (B : Type) (zero : B) (is_ws is_digit is_sign : B -> bool) (creatable close_fails : nat -> bool)
+         (fs : fsys B) (objs : nat -> fobj) (pre : list (op B)) (i h : nat) (off : Z) (o : origin) (n t : nat),
+  (forall j h', objs j <> FObj (Some h')) ->
+  let w := fst (run B zero is_ws is_digit is_sign creatable close_fails file_close_tests_closed file_close_clears_always (w_init B fs objs) pre) in
+  w_objs B w i = FObj (Some h) ->
+  let s := f_st (w_files B w h) in
+  let c := content B (w_fs B w) (s_path s) in
+  m_read (s_mode s) = true ->
+  seek_target (length c) (s_pos s) off o = Some (Z.of_nat t) -> 0 < n -> t + n <= length c ->
+  snd (run B zero is_ws is_digit is_sign creatable close_fails file_close_tests_closed file_close_clears_always w
+         [OSeek B i off o; OTell B i; OEof B i; ORead B i n; OTell B i]) =
+    [OkUnit B; OkNum B t; OkBool B false; OkRead B 1 (firstn n (skipn t c)); OkNum B (t + n)].
+Proof. exact FileRoundTrip.seek_tell_read_anywhere. Qed.
+Print Assumptions seek_tell_read_anywhere.
+
+Example seek_tell_read_anywhere_nonvacuous :
+  let w := fst (xrun true true [ONewOpen nat 1 2 MWp; OWrite nat 1 [10; 11; 12; 13; 14; 15]; OSeek nat 1 1%Z SeekSet]) in
+  w_objs nat w 1 = FObj (Some 0) /\
+  m_read (s_mode (f_st (w_files nat w 0))) = true /\
+  seek_target 6 (s_pos (f_st (w_files nat w 0))) (-4)%Z SeekEnd = Some (Z.of_nat 2) /\
+  snd (run nat 0 xws xdigit xsign xcreat xfull true true w
+         [OSeek nat 1 (-4)%Z SeekEnd; OTell nat 1; OEof nat 1; ORead nat 1 3; OTell nat 1])
+  = [OkUnit nat; OkNum nat 2; OkBool nat false; OkRead nat 1 [12; 13; 14]; OkNum nat 5].
+Proof. exact FileExamples.seek_anywhere_example. Qed.
 
 (* 6b. text: records "[sign]digits SP word NL" written by print_to(f,0,"%ld %s\n",k,w) are scanned back
        identical by scan_from(f,0,"%ld %s\n",...) after sclose + sopen, after ANY prefix history that
